@@ -137,6 +137,10 @@ def check_history(run):
     if info["workers"] is not None:
         if info["exited"] < info["workers"]:
             out.append(V("C07", "worker_leak", "%d of %d worker threads still alive after the pool was dropped (bounded wait)" % (info["workers"] - info["exited"], info["workers"])))
+        if concurrent and info["tc"] and max(info["tc"]) > max(hist or [0]):
+            # several callers at once: whatever the interleaving, the pool never needs more workers than the widest request
+            out.append(V("C06", "pool_size", "the pool grew to %d threads, the largest request of the whole history is %d" % (max(info["tc"]), max(hist or [0]))))
+            out.append(V("C07", "surplus_workers", "the pool grew to %d threads although no broadcast asked for more than %d" % (max(info["tc"]), max(hist or [0]))))
         if concurrent and len(workers_seen) != max(hist or [0]):
             out.append(V("C06", "worker_creation", "%d distinct workers ran tasks, the largest request was %d" % (len(workers_seen), max(hist or [0]))))
         if info["workers"] != len(workers_seen):
